@@ -35,8 +35,31 @@ def reads(e: ast.AST) -> Set[str]:
     return out
 
 
-def statement_defs(n: ast.AST) -> List[tuple]:
+META_ATTRS = {"size", "shape", "dim", "ndim", "ndimension", "numel", "dtype", "device", "batch_shape", "matrix_shape"}
+
+
+def value_reads(e: ast.AST) -> Set[str]:
+    """Like reads(), but a name reached only through a metadata access (x.size(-1), x.shape, x.dtype ...) is not read
+    for its VALUE."""
+    out: Set[str] = set()
+    stack = [e]
+    while stack:
+        x = stack.pop()
+        if isinstance(x, ast.Attribute) and x.attr in META_ATTRS:
+            continue
+        if isinstance(x, ast.Name):
+            out.add(x.id)
+        elif isinstance(x, ast.Attribute):
+            d = dotted(x)
+            if d:
+                out.add(d)
+        stack.extend(ast.iter_child_nodes(x))
+    return out
+
+
+def statement_defs(n: ast.AST, reads=None) -> List[tuple]:
     """[(defined name, set of names read)] for one ast node (not recursive)."""
+    reads = reads or globals()["reads"]
     out = []
     if isinstance(n, ast.Assign):
         r = reads(n.value)
@@ -74,12 +97,12 @@ def statement_defs(n: ast.AST) -> List[tuple]:
     return out
 
 
-def dependence(fn: FunctionInfo, nodes: Optional[Iterable[ast.AST]] = None) -> Dict[str, Set[str]]:
+def dependence(fn: FunctionInfo, nodes: Optional[Iterable[ast.AST]] = None, reads=None) -> Dict[str, Set[str]]:
     """name -> everything it may depend on, over the statements of fn (or of the given sub-tree nodes)."""
     direct: Dict[str, Set[str]] = {}
     it = nodes if nodes is not None else walk_body(fn)
     for n in it:
-        for name, r in statement_defs(n):
+        for name, r in statement_defs(n, reads):
             direct.setdefault(name, set()).update(r)
     closed = {k: set(v) for k, v in direct.items()}
     changed = True
@@ -102,3 +125,81 @@ def subtree_nodes(stmts: List[ast.stmt]) -> List[ast.AST]:
         for x in ast.walk(s):
             out.append(x)
     return out
+
+
+# ------------------------------------------------------------------------------------------------
+# flow-sensitive variant: reaching definitions over the statement CFG
+class ReachingDefs:
+    """Reaching definitions on the statement CFG of one function.  A plain rebinding ``x = e`` kills earlier definitions
+    of ``x``; in-place methods, ``out=``, subscript / attribute stores and augmented assignments are weak updates (they
+    read the previous value).  ``closure(node, names)`` = every name / dotted attribute the VALUE of the given names
+    may depend on at that node (free names - parameters, globals, ``self.attr`` - are the leaves)."""
+
+    def __init__(self, fn: FunctionInfo, reads=None):
+        from .cfg import CFG
+
+        self.fn = fn
+        self.reads = reads or globals()["reads"]
+        self.cfg = CFG(fn)
+        self.defs: Dict[int, List[tuple]] = {}  # node -> [(name, readset, strong)]
+        for nid, node in self.cfg.nodes.items():
+            a = node.ast
+            out: List[tuple] = []
+            if a is None:
+                pass
+            elif node.kind == "iter" and isinstance(a, ast.For):
+                r = self.reads(a.iter)
+                for x in ast.walk(a.target):
+                    if isinstance(x, ast.Name):
+                        out.append((x.id, r, True))
+            elif node.kind == "stmt" and not isinstance(a, (ast.FunctionDef, ast.AsyncFunctionDef, ast.ClassDef)):
+                for x in ast.walk(a):
+                    for name, r in statement_defs(x, self.reads):
+                        strong = isinstance(x, ast.Assign) and any(isinstance(t, ast.Name) and t.id == name for t in x.targets) or (
+                            isinstance(x, ast.Assign) and any(isinstance(t, (ast.Tuple, ast.List)) and any(
+                                isinstance(e, ast.Name) and e.id == name for e in ast.walk(t)) for t in x.targets))
+                        out.append((name, r if strong else (r | {name}), strong))
+            self.defs[nid] = out
+        # fixpoint
+        g = self.cfg.g
+        self.IN: Dict[int, Dict[str, frozenset]] = {n: {} for n in g.nodes}
+        OUT: Dict[int, Dict[str, frozenset]] = {n: {} for n in g.nodes}
+        work = list(g.nodes)
+        while work:
+            n = work.pop()
+            inn: Dict[str, set] = {}
+            for p in g.predecessors(n):
+                for k, v in OUT[p].items():
+                    inn.setdefault(k, set()).update(v)
+            inn_f = {k: frozenset(v) for k, v in inn.items()}
+            self.IN[n] = inn_f
+            out = dict(inn_f)
+            for i, (name, r, strong) in enumerate(self.defs.get(n, [])):
+                d = frozenset({(n, i)})
+                out[name] = d if strong else (out.get(name, frozenset()) | d)
+            if out != OUT[n]:
+                OUT[n] = out
+                work.extend(g.successors(n))
+
+    def node_of(self, a: ast.AST) -> Optional[int]:
+        nd = self.cfg.node_of(a)
+        return nd.id if nd is not None else None
+
+    def closure(self, nid: int, names: Iterable[str]) -> Set[str]:
+        out: Set[str] = set()
+        seen: Set[tuple] = set()
+        work = [(nm, nid, None) for nm in names]
+        while work:
+            nm, at, upto = work.pop()
+            out.add(nm)
+            base = nm.split(".")[0]
+            cands = set(self.IN.get(at, {}).get(nm, frozenset())) | (set(self.IN.get(at, {}).get(base, frozenset())) if base != nm else set())
+            # definitions made earlier in the same statement node (e.g. `a = f(x); ...` never happens inside one node) are not needed
+            for (m, i) in cands:
+                if (m, i) in seen:
+                    continue
+                seen.add((m, i))
+                name, r, strong = self.defs[m][i]
+                for x in r:
+                    work.append((x, m, None))
+        return out
